@@ -104,6 +104,29 @@ class Gen:
       self.shareable.append(nid)
     return d
 
+  EQUAL_CONSTS = ([1, 2, 4], [0, 3, 5], [6, 7], [8, 9, 10])
+
+  def equalish(self, mobj, mk):
+    """Descriptor of a value EQUAL to the model value mobj that is another
+    object (containers, nested configs) or of another type (1 / True / 1.0):
+    what an `unchanged, skip it` shortcut in an edit path confuses with mobj.
+    None if there is none."""
+    if type(mobj) in (bool, int, float, tuple):
+      for grp in self.EQUAL_CONSTS:
+        vals = [M.CONST_POOL[i] for i in grp]
+        if any(type(v) is type(mobj) and v == mobj for v in vals):
+          other = [i for i in grp if type(M.CONST_POOL[i]) is not type(mobj)
+                   or M.CONST_POOL[i] is not mobj]
+          other = [i for i in other if repr(M.CONST_POOL[i]) != repr(mobj)]
+          return {'const': self.rng.choice(other)} if other else None
+    for nid, obj in mk.memo.items():
+      if obj is mobj and nid in mk.descs:
+        self.next_id += 1
+        d = {'twin': nid, 'id': self.next_id}
+        self.shareable.append(self.next_id)
+        return d
+    return None
+
   def index(self, n):
     r = self.rng.random()
     if r < 0.8 and n > 0:
@@ -192,6 +215,9 @@ def gen_case(world, tier, prop):
       nm = g.name(m)
       if nm in m.sv.defaults and isinstance(m.sv.defaults[nm], str) and rng.random() < 0.2:
         v = m.sv.defaults[nm]  # explicitly set to the default
+      elif nm in m.named and rng.random() < 0.15:
+        v = g.equalish(m.named[nm], mk)
+        v = g.value() if v is None else v
       else:
         v = g.value()
       op = {'op': 'setattr', 'name': nm, 'v': v}
@@ -209,6 +235,10 @@ def gen_case(world, tier, prop):
           d_ = m.sv.prefix[i_].default
           if isinstance(d_, str):
             v = d_   # a positional parameter explicitly set to its default
+      if v is None and isinstance(key, int) and rng.random() < 0.2:
+        view_ = m.view()
+        if -len(view_) <= key < len(view_):
+          v = g.equalish(view_[key], mk)
       op = {'op': 'setitem', 'key': key, 'v': g.value() if v is None else v}
     elif r < 0.74:
       key = g.key(m, True)
@@ -222,7 +252,20 @@ def gen_case(world, tier, prop):
         k = rng.randint(0, 3)
       else:
         k = max(0, ln + rng.choice([-1, 1]))
-      op = {'op': 'setitem', 'key': key, 'vs': [g.value() for _ in range(k)]}
+      vs = []
+      view_ = m.view()
+      idxs_ = list(range(*rk.indices(n)))
+      mode_ = rng.random()
+      for j in range(k):
+        e = None
+        if mode_ < 0.2 and j < len(idxs_) and rng.random() < 0.6:
+          e = g.equalish(view_[idxs_[j]], mk)    # equal to what the slot holds
+        elif mode_ < 0.3 and vs and isinstance(vs[-1], dict) and 'id' in vs[-1]:
+          g.next_id += 1                          # equal neighbours
+          e = {'twin': vs[-1]['id'], 'id': g.next_id}
+          g.shareable.append(g.next_id)
+        vs.append(g.value() if e is None else e)
+      op = {'op': 'setitem', 'key': key, 'vs': vs}
     elif r < 0.86:
       op = {'op': 'delitem', 'key': g.key(m, rng.random() < 0.5)}
     elif r < 0.95:
@@ -240,7 +283,10 @@ def gen_case(world, tier, prop):
       apply_model(m, op, mk)
     except M.Invalid:
       g.shareable = snapshot  # values of a refused op never come to exist
-  return {'spec': spec, 'init': init, 'ops': ops, 'early_copy': early}
+  case = {'spec': spec, 'init': init, 'ops': ops, 'early_copy': early}
+  if btype == 'Config' and rng.random() < 0.15:
+    case['mutating_callee'] = True
+  return case
 
 
 # --------------------------------------------------------------------------
@@ -407,6 +453,7 @@ def run(case):
   def bump(d, k):
     d[k] = d.get(k, 0) + 1
 
+  rec.mutate_args = bool(case.get('mutating_callee'))
   init = {'node': case['init']}
   try:
     m = mk_m(init)
@@ -452,6 +499,17 @@ def run(case):
       if v:
         res['violations'].append(v)
         return res
+      if rec.mutate_args:
+        # the callables modified the containers they were GIVEN; what the config
+        # reports as configured changes through the constructor and edits only
+        probes['build_with_mutating_callee'] = probes.get('build_with_mutating_callee', 0) + 1
+        oi2 = C.canon(observe_impl(cfg, m))
+        if oi2 != oi:
+          res['violations'].append(viol(
+              'C01', 'build-changed-configured-arguments', op,
+              f'op #{idx}: building changed what the config reports: '
+              + '; '.join(C.diff(oi, oi2)), m))
+          return res
       continue
     if kind == 'swap':
       import copy as _copy
@@ -527,6 +585,11 @@ def run(case):
           'C03', 'state-mismatch', op,
           f'after op #{idx} {op} (model != fiddle): '
           + '; '.join(C.diff(om, oi)), m))
+      if case['init']['btype'] == 'Config':
+        # C01's side of it: is f still called with what the edits configured?
+        v = check_build(cfg, m, {'op': 'build', 'after': op['op']}, probes)
+        if v:
+          res['violations'].append(v)
       return res
     if kind in ('setitem', 'delitem') and m.tail != m_before.tail:
       bump(probes, 'tail_changed')
